@@ -209,25 +209,31 @@ void check_singletons(Lex& x, vf::Outcome& out)
    if (!(L.restrict_qualifier() == x.qsingle[2])) out.fail("C10:accessor:restrict", "restrict_qualifier() differs from qualifiers(restrict)");
 }
 
+// An unknown name is refused every time it is asked, also twice in a row (a refusal must not leave anything behind
+// that answers the next request).
 bool refused_spec(impl::Lexicon& L, const Logogram& l)
 {
-   try {
-      (void)L.specifiers(Basic_specifier{l});
+   for (int again = 0; again < 2; ++again) {
+      try {
+         (void)L.specifiers(Basic_specifier{l});
+         return false;
+      }
+      catch (...) {
+      }
    }
-   catch (...) {
-      return true;
-   }
-   return false;
+   return true;
 }
 bool refused_qual(impl::Lexicon& L, const Logogram& l)
 {
-   try {
-      (void)L.qualifiers(Basic_qualifier{l});
+   for (int again = 0; again < 2; ++again) {
+      try {
+         (void)L.qualifiers(Basic_qualifier{l});
+         return false;
+      }
+      catch (...) {
+      }
    }
-   catch (...) {
-      return true;
-   }
-   return false;
+   return true;
 }
 
 vf::Outcome run_case(const Case& c, const vf::Options&)
